@@ -6,12 +6,12 @@
      isCyclicHelper                     src/loader/validators.go:86-109    [cyc_helper / cyc_loop]
      validateHealthDependencyHasHealthCheck (only its "not defined" branch, strict mode) :111-140
      validateDependencyIsEnabled        src/loader/validators.go:151-169   [validate]
-     admitProcesses + NamespaceAdmitter src/loader/loader.go:106-119, src/admitter/namespace.go  [admit]
+     admitProcesses + NamespaceAdmitter src/loader/loader.go:106-119, src/admitter/namespace.go  [ns_filter]
      Project.GetProcesses               src/types/project.go:69-95         [resolve1 / get_procs]
      Project.withProcesses              src/types/project.go:97-121        [wp / wp_loop]
      GetDependenciesOrderNames          src/types/project.go:38-49         [dep_order]
      selectRunningProcesses             src/app/project_runner.go:828-853  [select]
-     selectRunningProcessesNoDeps       src/app/project_runner.go:855-877  [select_nodeps]
+     selectRunningProcessesNoDeps       src/app/project_runner.go:855-877  [select_nodeps] (repaired: fixes/F34)
      ProcessConfig.IsDeferred           src/types/process.go:76-78         [deferred]
      NewProcessState                    src/types/process.go:184-206       [status_of]
      ProjectRunner.Run (run order)      src/app/project_runner.go:68-92    [run_set]
@@ -51,7 +51,7 @@ Definition by_name (g : graph) (n : N) : list proc := filter (fun p => N.eqb (pn
 Definition deferred (p : proc) : bool := fg p || dis p.
 
 (* NamespaceAdmitter: no namespaces selected = everything admitted *)
-Definition admit (nss : list N) (g : graph) : graph :=
+Definition ns_filter (nss : list N) (g : graph) : graph :=
   match nss with [] => g | _ => filter (fun p => mem (ns p) nss) g end.
 
 Inductive site := SRoots | SProcs (caller n : N) | SDeps (caller k : N).
@@ -225,11 +225,13 @@ Definition select (ord : oracle) (fuel : nat) (g : graph) (req : list N) : res g
          end
   end.
 
-(* selectRunningProcessesNoDeps: matches on Name only; unknown names are ignored *)
+(* selectRunningProcessesNoDeps AFTER the proposed repair fixes/F34-nodeps-replica-name.diff: a
+   process is selected when its Name or its ReplicaName is requested (the unrepaired code compares the
+   Name only, so that a requested replica name selects nothing); unknown names are ignored *)
 Definition select_nodeps (g : graph) (req : list N) : graph :=
   match req with
   | [] => g
-  | _ => map (fun p => if mem (pname p) req then clear_deps p else set_dis true p) g
+  | _ => map (fun p => if mem (pname p) req || mem (key p) req then clear_deps p else set_dis true p) g
   end.
 
 Inductive status := StDisabled | StForeground | StPending.
@@ -255,7 +257,7 @@ Definition pipeline (ord : oracle) (i : input) : outcome :=
   match validate ord g0 (cyc_fuel g0) (i_strict i) with
   | None => OFuel
   | Some VOk =>
-      let g1 := admit (i_nss i) g0 in
+      let g1 := ns_filter (i_nss i) g0 in
       let sel := if i_nodeps i then Ok (select_nodeps g1 (i_req i))
                  else select ord (wp_fuel g1) g1 (i_req i) in
       match sel with
